@@ -57,6 +57,27 @@ def wireChunkedGzipHello : Bytes :=
 /-- the same for a chunked response (`self.chunked` is set) -/
 def cfgGzipChunked : Cfg CD := { cfgGzipHello with chunked := true }
 
+/-- `gzipHello` with the first byte of its CRC-32 flipped (134 → 135) -/
+def gzipHelloBadCrc : Bytes := [31, 139, 8, 0, 0, 0, 0, 0, 0, 255, 1, 5, 0, 250, 255, 104, 101, 108, 108, 111, 135, 166, 16, 54, 5, 0, 0, 0]
+
+/-- two gzip members "hello" + "hello", the second with a corrupt CRC-32 (`Content-Length: 56`) -/
+def wireGzipLaterCorrupt : Bytes :=
+  lit "HTTP/1.1 200 OK\r\nContent-Encoding: gzip\r\nContent-Length: 56\r\n\r\n" ++ gzipHello ++ gzipHelloBadCrc
+
+/-- a chunked response cut inside its first chunk: the size line promises 5 bytes, 2 arrive -/
+def wireChunkedCut : Bytes :=
+  lit "HTTP/1.1 200 OK\r\nTransfer-Encoding: chunked\r\n\r\n5\r\nab"
+
+/-- a chunked response with one whole chunk and an unparseable second size line -/
+def wireChunkedBadLine : Bytes :=
+  lit "HTTP/1.1 200 OK\r\nTransfer-Encoding: chunked\r\n\r\n2\r\nab\r\nzz\r\ncd\r\n0\r\n\r\n"
+
+/-- a non-preloaded chunked response (no Content-Encoding) -/
+def respChunked (wire : Bytes) (seg : Nat) : R H CD :=
+  { fp := hBegin ⟨[], wire, seg⟩ (some (lit "chunked")) none false 200 false, lengthRemaining := none, conn := true }
+
+def cfgChunkedNone : Cfg CD := cfgOf none (some (lit "chunked")) 1000
+
 def out {α β} (x : Except Exc α × β) : Option α := match x.1 with | .ok a => some a | .error _ => none
 def err {α β} (x : Except Exc α × β) : Option Exc := match x.1 with | .ok _ => none | .error e => some e
 
